@@ -530,11 +530,88 @@ def flush_c(ctx, pending_c):
     del pending_c[:]
 
 
+
+# ------------------------------------------------------------------ incremental use: caches must never be stale
+def op_incremental(ctx, dendropy, pending):
+    """trees are counted in batches on ONE TreeArray / SplitDistribution; between batches the summaries are queried in
+    varying orders (this populates the frequency and summary caches); every answer must describe all trees counted so far"""
+    rng = ctx.rng
+    tns, trees = gen_sample(dendropy, rng, ctx)
+    rootings = {t.is_rooted for t in trees}
+    if len(rootings) != 1 or len(trees) < 2 or any(c04.basal_survives(t) for t in trees):
+        return
+    use_w = rng.random() < 0.5
+    cuts = sorted(rng.sample(range(1, len(trees)), min(len(trees) - 1, rng.randint(1, 2))))
+    batches = [trees[a:b] for a, b in zip([0] + cuts, cuts + [len(trees)])]
+    script = [[rng.choice(["consensus", "summarize", "summarize", "freq", "scores", "mcc"]) for _ in range(rng.randint(0, 3))]
+              for _ in batches]
+    script[-1] = script[-1] + ["summarize"] if rng.random() < 0.7 else script[-1]
+    case = dict(sample_case(tns, trees, use_w, None, False), op="incremental", cuts=cuts, script=script)
+    run_incremental(ctx, dendropy, tns, trees, use_w, cuts, script, case)
+
+
+def run_incremental(ctx, dendropy, tns, trees, use_w, cuts, script, case):
+    batches = [trees[a:b] for a, b in zip([0] + cuts, cuts + [len(trees)])]
+    ta = dendropy.TreeArray(taxon_namespace=tns, use_tree_weights=use_w)
+    ctx.case(["incremental", stable_hash(case)], True, kind="incremental")
+    seen = []
+    for batch, queries in zip(batches, script):
+        for t in batch:
+            c = c04.clone(dendropy, t)
+            c.weight = t.weight
+            ta.add_tree(c)
+            seen.append(t)
+        fr, _ = oracle_freqs(seen, use_w)
+        per_split = {}
+        for t in seen:
+            for s, l in c04.split_lengths(t).items():
+                per_split.setdefault(s, []).append(l)
+        for q in queries:
+            if q == "consensus":
+                ta.consensus_tree(min_freq=0.5)
+            elif q == "freq":
+                d = ta.split_distribution
+                for s, f in fr.items():
+                    if not close(d[s], float(f), 1e-12):
+                        ctx.fail("stale", "after %d trees split %d has frequency %r, expected %s" % (len(seen), s, d[s], f), case)
+                        return
+            elif q == "scores":
+                ta.calculate_sum_of_split_supports()
+            elif q == "mcc":
+                ta.maximum_product_of_split_support_tree()
+            else:
+                tgt = c04.clone(dendropy, seen[ctx.rng.randrange(len(seen))])
+                ta.summarize_splits_on_tree(tgt)
+                masks = tu.leafset_masks(tgt)
+                L = masks[id(tgt.seed_node)]
+                low = L & -L
+                rooted = bool(tgt.is_rooted)
+                for nd in tu.walk(tgt.seed_node):
+                    m = masks[id(nd)]
+                    s = m if rooted else ((L & ~m) if (m & low) else m)
+                    vals = per_split.get(s, [])
+                    if not vals:
+                        continue
+                    if not close(getattr(nd, "support", -1), float(fr.get(s, 0)), 1e-12):
+                        ctx.fail("stale", "after %d trees, summarize_splits_on_tree gives support %r for split %d, frequency over all counted trees is %s" % (
+                            len(seen), getattr(nd, "support", None), s, fr.get(s)), case)
+                        return
+                    mean = sum(vals, Fraction(0)) / len(vals)
+                    sv = sorted(vals)
+                    e = nd.edge
+                    if not (close(e.length_mean, float(mean)) and close(e.length_range[0], float(sv[0])) and close(e.length_range[1], float(sv[-1]))):
+                        ctx.fail("stale", "after %d trees, edge of split %d is summarised as mean %r range %r; the %d values counted so far are %s" % (
+                            len(seen), s, e.length_mean, e.length_range, len(vals), [str(v) for v in vals]), case)
+                        return
+
+
 def run_op(ctx, dendropy, op, pending, pending_c):
     rng = ctx.rng
     if op == "summ":
         tns, trees = gen_sample(dendropy, rng, ctx)
         check_sample(ctx, dendropy, tns, trees, rng.random() < 0.6, rng.choice(THRESHOLDS), rng.random() < 0.3, pending)
+    elif op == "incremental":
+        op_incremental(ctx, dendropy, pending)
     else:
         op_collapse(ctx, dendropy, pending_c)
 
@@ -547,7 +624,7 @@ def run(ctx):
     for _ in range(ctx.pick(1500, 30000)):
         if ctx.out_of_time():
             break
-        op = "summ" if rng.random() < 0.75 else "collapse"
+        op = rng.choices(["summ", "collapse", "incremental"], [0.6, 0.2, 0.2])[0]
         state = rng.getstate()
         try:
             run_op(ctx, dendropy, op, pending, pending_c)
@@ -605,5 +682,8 @@ def replay(ctx, rec):
     elif c.get("op") == "summ":
         tns, trees = trees_of_case(dendropy, c)
         check_sample(ctx, dendropy, tns, trees, c["use_weights"], c["threshold"], c["incl_external"], pending)
+    elif c.get("op") == "incremental":
+        tns, trees = trees_of_case(dendropy, c)
+        run_incremental(ctx, dendropy, tns, trees, c["use_weights"], c["cuts"], c["script"], c)
     flush(ctx, pending)
     flush_c(ctx, pending_c)
